@@ -94,3 +94,8 @@ claim("C15", "model_checking",
       "schemdraw geometry; JSON only (the statement does not cover YAML)",
       "explicit-state exploration of save/load cycles and declarative programs on the implementation with a reference model",
       "DESIGN.md section 4 C15")
+claim("C14", "model_checking",
+      "Every drawing of the pool (every symbol kind in a loop or divider context, both directions, both reversal flags, plus a two-mesh drawing) x every solution kind and display option (real precision 1..5; complex and single-frequency complex with precision x Cartesian/polar x radians/degrees; time-domain steady state with sine reference x degrees x hertz) x every named element x voltage/current/power x both annotation directions and every labelled node for potentials: the text of every label produced by the real draw_* functions, and by create_schematic's solution section, is parsed by a reference parser and compared with the quantity from the library's own solution of the translated circuit to half a unit of the last displayed digit, negated exactly for reverse annotations; sinusoid labels are read as the function of time they spell out.",
+      "sinusoid amplitudes are RMS magnitudes of the default phasor solution; C18 accuracy rules",
+      "bounded-exhaustive enumeration of drawings x solution kinds x display options x labels on the implementation with a reference parser",
+      "DESIGN.md section 4 C14")
